@@ -715,6 +715,17 @@ class Body:
             if root[0] == 'param':
                 out.append((('param', root[2]), tuple(ch)))
                 return True
+            # an element handed out by an iterator over a parameter's collection (`for x in p.iter_mut()..`): the
+            # borrow rules confine it to memory reachable from that parameter
+            r2 = root
+            for _ in range(8):
+                if r2[0] == 'call' and r2[2] and (method_name(r2[1]) in _ITER_SHAPING or 'Iterator' in r2[1] or 'IntoIterator' in r2[1]):
+                    r2, _ch = field_chain(r2[2][0])
+                else:
+                    break
+            if r2[0] == 'param' and r2 is not root:
+                out.append((('param', r2[2]), ()))
+                return True
             return False
         res = None
         for st in blk['stmts']:
@@ -870,6 +881,10 @@ class Body:
             if t['k'] == 'assert':
                 out.append((i, t))
         return out
+
+
+_ITER_SHAPING = {'next', 'iter', 'iter_mut', 'into_iter', 'enumerate', 'take', 'skip', 'rev', 'zip', 'chunks', 'chunks_mut', 'chunks_exact',
+                 'chunks_exact_mut', 'step_by', 'by_ref', 'peekable', 'values_mut', 'values', 'keys'}
 
 
 def fact_killed(f, writes):
@@ -1689,6 +1704,9 @@ def canon(e, keep_casts=True, _d=0, labels=None):
             return canon(e[2][0], keep_casts, d)
         if m == 'index' and len(e[2]) == 2:
             return '%s[%s]' % (canon(e[2][0], keep_casts, d), canon(e[2][1], keep_casts, d))
+        # Entry::or_default() on an integer counter is or_insert(0) (rules that rely on this check the value type)
+        if m == 'or_default' and len(e[2]) == 1 and 'Entry' in name:
+            return 'or_insert(%s, 0)' % canon(e[2][0], keep_casts, d)
         # format!("{}", x) is x.to_string() (ToString is implemented through Display)
         if m == 'format' and len(e[2]) == 1:
             a = peel(e[2][0], calls=False)
@@ -1922,6 +1940,7 @@ def inline_helpers(raw_by_path, known, max_rounds=6):
                 break
         if cur is not raw:
             thread_known_variants(cur)
+            thread_bool_constants(cur)
         out[path] = cur
     return out, used
 
@@ -2139,8 +2158,118 @@ def _targets_of(t):
 
 _ITER_CONSUMERS = {'std::iter::Iterator::for_each': 'for_each', 'std::iter::Iterator::try_for_each': 'try_for_each',
                    'std::iter::Iterator::all': 'all', 'std::iter::Iterator::any': 'any'}
-_OPT_COMBINATORS = {'std::option::Option::<T>::is_some_and': 'is_some_and', 'std::option::Option::<T>::map_or': 'map_or'}
+_OPT_COMBINATORS = {'std::option::Option::<T>::is_some_and': 'is_some_and', 'std::option::Option::<T>::map_or': 'map_or',
+                    'std::option::Option::<T>::map': 'option_map', 'std::result::Result::<T, E>::map': 'result_map',
+                    'std::option::Option::<T>::filter': 'option_filter'}
+#   opt.filter(p)  == match opt { Some(x) if p(&x) => Some(x), _ => None }
+#   opt.transpose() (Option<Result<T, E>>) == match opt { Some(Ok(x)) => Ok(Some(x)), Some(Err(e)) => Err(e), None => Ok(None) }
+_TRANSPOSE = 'std::option::Option::<std::result::Result<T, E>>::transpose'
 _ITER_ADAPTORS = {'std::iter::Iterator::map': 'map', 'std::iter::Iterator::filter': 'filter'}
+#   m.entry(k).and_modify(f).or_insert(v)  ==  match m.get_mut(&k) { Some(x) => f(x), None => { m.insert(k, v); } }
+_ENTRY_MODIFY = re.compile(r'^std::collections::(hash_map|btree_map)::Entry::<.*>::and_modify$')
+
+
+def _patch_fn(func, old, new, impl_self=None):
+    f = _copy.deepcopy(func)
+    fn = f['fn']
+    for k in ('path', 'full'):
+        fn[k] = fn[k].replace(old, new)
+    if 'resolved' in fn and fn['resolved']:
+        for k in ('path', 'full'):
+            fn['resolved'][k] = fn['resolved'][k].replace(old, new)
+    return f
+
+
+def _expand_entry_modify(raw, raw_by_path, bi, used):
+    blk = raw['blocks'][bi]
+    t = blk['term']
+    span = t.get('span', {})
+    B = _Builder(raw)
+    clos = _closure_defs(raw, raw_by_path)
+    if len(t['args']) != 2 or not _plain_local(t['args'][0]) or not _plain_local(t['args'][1]) or t['args'][1]['place']['l'] not in clos or t.get('target') is None:
+        return False
+    f_local = t['args'][1]['place']['l']
+    f_path = clos[f_local]
+    cdefs = _call_defs(raw)
+    e_local = t['args'][0]['place']['l']
+    if e_local not in cdefs:
+        return False
+    ebi, et = cdefs[e_local]
+    if not re.search(r'(HashMap|BTreeMap)::<.*>::entry$', _fn_path(et) or '') or len(et['args']) != 2 or not _plain_local(et['args'][0]) or et.get('target') is None:
+        return False
+    am_dest = t['dest']
+    if am_dest['p']:
+        return False
+    # the or_insert that consumes the modified entry
+    obi = None
+    for i2, b2 in enumerate(raw['blocks']):
+        t2 = b2['term']
+        if t2 and t2['k'] == 'call' and t2['args'] and _plain_local(t2['args'][0]) and t2['args'][0]['place']['l'] == am_dest['l']:
+            if obi is not None:
+                return False
+            obi = i2
+    if obi is None:
+        return False
+    ot = raw['blocks'][obi]['term']
+    if not re.search(r'Entry::<.*>::or_insert$', _fn_path(ot) or '') or len(ot['args']) != 2 or ot.get('target') is None or ot['dest']['p']:
+        return False
+    # the reference returned by or_insert must be unused
+    od = {ot['dest']['l']}
+    for i2, b2 in enumerate(raw['blocks']):
+        for st in b2['stmts']:
+            if st['k'] == 'assign' and _uses_local(st['rv'], od):
+                return False
+        tt = dict(b2['term'] or {})
+        tt.pop('dest', None)
+        if _uses_local(tt, od):
+            return False
+    # recreate the &mut map borrow for the insert
+    m_local = et['args'][0]['place']['l']
+    mdef = None
+    for b2 in raw['blocks']:
+        for st in b2['stmts']:
+            if st['k'] == 'assign' and not st['place']['p'] and st['place']['l'] == m_local:
+                if mdef is not None:
+                    return False
+                mdef = st
+    if mdef is None or mdef['rv']['k'] != 'ref':
+        return False
+    m_ty = et['args'][0]['place'].get('ty', '')
+    k_op = et['args'][1]
+    k_ty = k_op.get('place', {}).get('ty', k_op.get('ty', ''))
+    v_ty = ot['args'][1].get('place', {}).get('ty', ot['args'][1].get('ty', ''))
+    # entry(..) becomes get_mut(&mut m, &k)
+    kt = B.local(k_ty)
+    kr = B.local('&' + k_ty)
+    gm = B.local('std::option::Option<&mut %s>' % v_ty)
+    eb = raw['blocks'][ebi]
+    eb['stmts'].append(B.assign(B.place(kt, k_ty), {'k': 'use', 'op': k_op if k_op.get('k') != 'move' else dict(k_op, k='copy')}, span))
+    eb['stmts'].append(B.assign(B.place(kr, '&' + k_ty), {'k': 'ref', 'mut': False, 'place': B.place(kt, k_ty)}, span))
+    eb['term'] = dict(et, func=_patch_fn(et['func'], '::entry', '::get_mut'), args=[et['args'][0], B.mv(kr, '&' + k_ty)],
+                      dest=B.place(gm, 'std::option::Option<&mut %s>' % v_ty))
+    # and_modify(..) disappears
+    blk['term'] = {'k': 'goto', 'target': t['target'], 'span': span}
+    # or_insert(..) becomes the match
+    ob = raw['blocks'][obi]
+    d = B.local('isize')
+    x = B.local('&mut ' + v_ty)
+    ut = B.local('()')
+    stub = B.block([B.assign(B.place(x, '&mut ' + v_ty), {'k': 'use', 'op': B.mv(gm, '&mut ' + v_ty, [{'k': 'downcast', 'variant': 'Some'}, {'k': 'field', 'name': '0', 'idx': 0, 'ty': '&mut ' + v_ty, 'of': 'std::option::Option'}])}, span)], None)
+    e = _emit_closure_call(B, raw_by_path, f_local, f_path, [B.mv(x, '&mut ' + v_ty)], B.place(ut, '()'), ot['target'], span)
+    if e is None:
+        return False
+    raw['blocks'][stub]['term'] = {'k': 'goto', 'target': e, 'span': span}
+    m2 = B.local(m_ty)
+    it = B.local('std::option::Option<%s>' % v_ty)
+    ins = B.block([B.assign(B.place(m2, m_ty), _copy.deepcopy(mdef['rv']), span)],
+                  dict(ot, func=_patch_fn(et['func'], '::entry', '::insert'), args=[B.mv(m2, m_ty), B.mv(kt, k_ty), ot['args'][1]],
+                       dest=B.place(it, 'std::option::Option<%s>' % v_ty)))
+    unr = B.block([], {'k': 'unreachable', 'span': span})
+    ob['stmts'].append(B.assign(B.place(d, 'isize'), {'k': 'discr', 'place': B.place(gm, ''), 'variants': [[0, 'None'], [1, 'Some']]}, span))
+    ob['term'] = {'k': 'switch', 'discr': B.mv(d, 'isize'), 'arms': [[0, ins], [1, stub]], 'otherwise': unr, 'discr_ty': 'isize', 'span': span}
+    used.add(f_path)
+    return True
+
 
 
 class _Builder:
@@ -2254,6 +2383,67 @@ def _expand_one(raw, raw_by_path, bi, kind, used):
     f_local = args[-1]['place']['l']
     f_path = clos[f_local]
     some0 = lambda ty: [{'k': 'downcast', 'variant': 'Some'}, {'k': 'field', 'name': '0', 'idx': 0, 'ty': ty, 'of': 'std::option::Option'}]
+    if kind == 'option_filter':
+        if not _plain_local(args[0]):
+            return False
+        o = args[0]['place']['l']
+        oty = args[0]['place'].get('ty', '')
+        rty = raw_by_path[f_path]['locals'][2]['ty'] if raw_by_path[f_path]['arg_count'] >= 2 else ''
+        item_ty = rty[1:] if rty.startswith('&') else rty
+        d = B.local('isize')
+        x = B.local(item_ty)
+        xr = B.local('&' + item_ty)
+        pb = B.local('bool')
+        proj = [{'k': 'downcast', 'variant': 'Some'}, {'k': 'field', 'name': '0', 'idx': 0, 'ty': item_ty, 'of': 'std::option::Option'}]
+        none_rv = {'k': 'aggr', 'akind': 'adt', 'adt': 'std::option::Option', 'adt_full': dest.get('ty', ''), 'variant': 'None', 'fields': [], 'ops': []}
+        nb = B.block([B.assign(dest, none_rv, span)], {'k': 'goto', 'target': target, 'span': span})
+        keep = B.block([B.assign(dest, {'k': 'aggr', 'akind': 'adt', 'adt': 'std::option::Option', 'adt_full': dest.get('ty', ''), 'variant': 'Some', 'fields': ['0'],
+                                        'ops': [B.mv(x, item_ty)]}, span)], {'k': 'goto', 'target': target, 'span': span})
+        test = B.block([], {'k': 'switch', 'discr': B.mv(pb, 'bool'), 'arms': [[0, nb]], 'otherwise': keep, 'discr_ty': 'bool', 'span': span})
+        stub = B.block([B.assign(B.place(x, item_ty), {'k': 'use', 'op': B.mv(o, item_ty, proj)}, span),
+                        B.assign(B.place(xr, '&' + item_ty), {'k': 'ref', 'mut': False, 'place': B.place(x, item_ty)}, span)], None)
+        e = _emit_closure_call(B, raw_by_path, f_local, f_path, [B.mv(xr, '&' + item_ty)], B.place(pb, 'bool'), test, span)
+        if e is None:
+            return False
+        raw['blocks'][stub]['term'] = {'k': 'goto', 'target': e, 'span': span}
+        unr = B.block([], {'k': 'unreachable', 'span': span})
+        blk['stmts'].append(B.assign(B.place(d, 'isize'), {'k': 'discr', 'place': B.place(o, oty), 'variants': [[0, 'None'], [1, 'Some']]}, span))
+        blk['term'] = {'k': 'switch', 'discr': B.mv(d, 'isize'), 'arms': [[0, nb], [1, stub]], 'otherwise': unr, 'discr_ty': 'isize', 'span': span}
+        used.add(f_path)
+        return True
+    if kind in ('option_map', 'result_map'):
+        # opt.map(f) == match opt { Some(x) => Some(f(x)), None => None };  res.map(f) == match res { Ok(x) => Ok(f(x)), Err(e) => Err(e) }
+        if not _plain_local(args[0]):
+            return False
+        o = args[0]['place']['l']
+        oty = args[0]['place'].get('ty', '')
+        good, bad = ('Some', 'None') if kind == 'option_map' else ('Ok', 'Err')
+        adt = 'std::option::Option' if kind == 'option_map' else 'std::result::Result'
+        variants = [[0, 'None'], [1, 'Some']] if kind == 'option_map' else [[0, 'Ok'], [1, 'Err']]
+        item_ty = raw_by_path[f_path]['locals'][2]['ty'] if raw_by_path[f_path]['arg_count'] >= 2 else ''
+        yty = raw_by_path[f_path]['locals'][0]['ty']
+        d = B.local('isize')
+        x = B.local(item_ty)
+        y = B.local(yty)
+        proj = lambda v, ty: [{'k': 'downcast', 'variant': v}, {'k': 'field', 'name': '0', 'idx': 0, 'ty': ty, 'of': adt}]
+        stub = B.block([B.assign(B.place(x, item_ty), {'k': 'use', 'op': B.mv(o, item_ty, proj(good, item_ty))}, span)], None)
+        wrap = B.block([B.assign(dest, {'k': 'aggr', 'akind': 'adt', 'adt': adt, 'adt_full': dest.get('ty', ''), 'variant': good, 'fields': ['0'], 'ops': [B.mv(y, yty)]}, span)],
+                       {'k': 'goto', 'target': target, 'span': span})
+        e = _emit_closure_call(B, raw_by_path, f_local, f_path, [B.mv(x, item_ty)], B.place(y, yty), wrap, span)
+        if e is None:
+            return False
+        raw['blocks'][stub]['term'] = {'k': 'goto', 'target': e, 'span': span}
+        if kind == 'option_map':
+            brv = {'k': 'aggr', 'akind': 'adt', 'adt': adt, 'adt_full': dest.get('ty', ''), 'variant': 'None', 'fields': [], 'ops': []}
+        else:
+            brv = {'k': 'aggr', 'akind': 'adt', 'adt': adt, 'adt_full': dest.get('ty', ''), 'variant': 'Err', 'fields': ['0'], 'ops': [B.mv(o, '', proj('Err', ''))]}
+        nb = B.block([B.assign(dest, brv, span)], {'k': 'goto', 'target': target, 'span': span})
+        unr = B.block([], {'k': 'unreachable', 'span': span})
+        blk['stmts'].append(B.assign(B.place(d, 'isize'), {'k': 'discr', 'place': B.place(o, oty), 'variants': variants}, span))
+        arms = [[0, nb], [1, stub]] if kind == 'option_map' else [[0, stub], [1, nb]]
+        blk['term'] = {'k': 'switch', 'discr': B.mv(d, 'isize'), 'arms': arms, 'otherwise': unr, 'discr_ty': 'isize', 'span': span}
+        used.add(f_path)
+        return True
     if kind in ('is_some_and', 'map_or'):
         if not _plain_local(args[0]):
             return False
@@ -2398,6 +2588,42 @@ def _expand_one(raw, raw_by_path, bi, kind, used):
     return True
 
 
+def _expand_transpose(raw, bi):
+    blk = raw['blocks'][bi]
+    t = blk['term']
+    span = t.get('span', {})
+    B = _Builder(raw)
+    dest, target = t['dest'], t.get('target')
+    if target is None or len(t['args']) != 1 or not _plain_local(t['args'][0]):
+        return False
+    o = t['args'][0]['place']['l']
+    oty = t['args'][0]['place'].get('ty', '')
+    dty = dest.get('ty', '')
+    d = B.local('isize')
+    d2 = B.local('isize')
+    r = B.local('')
+    v = B.local('')
+    ev = B.local('')
+    sm = B.local('')
+    nn = B.local('')
+    opt = lambda var, ops: {'k': 'aggr', 'akind': 'adt', 'adt': 'std::option::Option', 'adt_full': '', 'variant': var, 'fields': ['0'] if ops else [], 'ops': ops}
+    res = lambda var, ops: {'k': 'aggr', 'akind': 'adt', 'adt': 'std::result::Result', 'adt_full': dty, 'variant': var, 'fields': ['0'], 'ops': ops}
+    pj = lambda var, of: [{'k': 'downcast', 'variant': var}, {'k': 'field', 'name': '0', 'idx': 0, 'ty': '', 'of': of}]
+    go = {'k': 'goto', 'target': target, 'span': span}
+    nb = B.block([B.assign(B.place(nn), opt('None', []), span), B.assign(dest, res('Ok', [B.mv(nn)]), span)], dict(go))
+    okb = B.block([B.assign(B.place(v), {'k': 'use', 'op': B.mv(r, '', pj('Ok', 'std::result::Result'))}, span),
+                   B.assign(B.place(sm), opt('Some', [B.mv(v)]), span), B.assign(dest, res('Ok', [B.mv(sm)]), span)], dict(go))
+    erb = B.block([B.assign(B.place(ev), {'k': 'use', 'op': B.mv(r, '', pj('Err', 'std::result::Result'))}, span),
+                   B.assign(dest, res('Err', [B.mv(ev)]), span)], dict(go))
+    unr = B.block([], {'k': 'unreachable', 'span': span})
+    sb = B.block([B.assign(B.place(r), {'k': 'use', 'op': B.mv(o, '', pj('Some', 'std::option::Option'))}, span),
+                  B.assign(B.place(d2, 'isize'), {'k': 'discr', 'place': B.place(r), 'variants': [[0, 'Ok'], [1, 'Err']]}, span)],
+                 {'k': 'switch', 'discr': B.mv(d2, 'isize'), 'arms': [[0, okb], [1, erb]], 'otherwise': unr, 'discr_ty': 'isize', 'span': span})
+    blk['stmts'].append(B.assign(B.place(d, 'isize'), {'k': 'discr', 'place': B.place(o, oty), 'variants': [[0, 'None'], [1, 'Some']]}, span))
+    blk['term'] = {'k': 'switch', 'discr': B.mv(d, 'isize'), 'arms': [[0, nb], [1, sb]], 'otherwise': unr, 'discr_ty': 'isize', 'span': span}
+    return True
+
+
 def expand_combinators(raw_by_path):
     """returns (new_raw_by_path, closure paths that were spliced into their creators)"""
     out = {}
@@ -2411,14 +2637,20 @@ def expand_combinators(raw_by_path):
                 if not t or t['k'] != 'call' or blk.get('cleanup'):
                     continue
                 fp = _fn_path(t)
-                kind = _ITER_CONSUMERS.get(fp) or _OPT_COMBINATORS.get(fp)
+                kind = _ITER_CONSUMERS.get(fp) or _OPT_COMBINATORS.get(fp) or ('and_modify' if fp and _ENTRY_MODIFY.match(fp) else None) or \
+                    ('transpose' if fp == _TRANSPOSE else None)
                 if kind:
                     hit = (bi, kind)
                     if cur is raw:
                         cur = _copy.deepcopy(raw)
                     snapshot = _copy.deepcopy(cur)
                     try:
-                        ok = _expand_one(cur, raw_by_path, bi, kind, used)
+                        if kind == 'and_modify':
+                            ok = _expand_entry_modify(cur, raw_by_path, bi, used)
+                        elif kind == 'transpose':
+                            ok = _expand_transpose(cur, bi)
+                        else:
+                            ok = _expand_one(cur, raw_by_path, bi, kind, used)
                     except (KeyError, IndexError):
                         ok = False
                     if ok:
@@ -2427,5 +2659,137 @@ def expand_combinators(raw_by_path):
                     hit = None
             if hit is None:
                 break
+        if cur is not raw:
+            thread_known_variants(cur)
+            thread_bool_constants(cur)
         out[path] = cur
     return out, used
+
+
+# ------------------------------------------------------------------------------------------
+# Jump threading for boolean constants (after inlining): a predicate helper `a && b` compiles to
+#   bb1: r = const false; goto J      bb2: r = <b>; goto J      J: d = move r; switch d
+# Inlined into its caller, the join hides that the false path never reaches the true arm. Each path that assigns a
+# constant gets a private copy of the short chain up to the switch, with the switch resolved and the temporaries
+# renamed, so that the shared temporary keeps only its non-constant definitions (plain constant propagation).
+
+def _op_local(o):
+    if o.get('k') in ('move', 'copy') and not o['place']['p']:
+        return o['place']['l']
+    return None
+
+
+def _rename_op(o, ren):
+    l = _op_local(o)
+    if l is not None and l in ren:
+        return dict(o, place=dict(o['place'], l=ren[l]))
+    return o
+
+
+def _uses_local(x, locs):
+    if isinstance(x, dict):
+        if 'l' in x and 'p' in x and x['l'] in locs:
+            return True
+        return any(_uses_local(v, locs) for v in x.values())
+    if isinstance(x, list):
+        return any(_uses_local(v, locs) for v in x)
+    return False
+
+
+def thread_bool_constants(raw, max_chain=6, max_rounds=40):
+    blocks = raw['blocks']
+    changed_any = False
+    for _ in range(max_rounds):
+        changed = False
+        for pi, P in enumerate(blocks):
+            if P.get('cleanup') or P['term']['k'] != 'goto' or not P['stmts']:
+                continue
+            last = P['stmts'][-1]
+            if last['k'] != 'assign' or last['place']['p'] or last['rv']['k'] != 'use' or last['rv']['op'].get('k') != 'const':
+                continue
+            val = last['rv']['op'].get('val')
+            if not isinstance(val, dict) or 'bool' not in val:
+                continue
+            kn = {last['place']['l']: bool(val['bool'])}
+            chain = []
+            cur = P['term']['target']
+            resolved = None
+            ok = True
+            while len(chain) < max_chain:
+                B = blocks[cur]
+                if B.get('cleanup') or cur == pi:
+                    ok = False
+                    break
+                for s in B['stmts']:
+                    if s['k'] != 'assign':
+                        continue
+                    src = _op_local(s['rv']['op']) if s['rv']['k'] == 'use' else None
+                    if not s['place']['p'] and src is not None and src in kn:
+                        kn[s['place']['l']] = kn[src]
+                    elif _uses_local(s['rv'], set(kn)) or (not s['place']['p'] and s['place']['l'] in kn):
+                        ok = False   # the constant is consumed or overwritten in a way we do not follow
+                if not ok:
+                    break
+                t = B['term']
+                if t['k'] == 'goto':
+                    chain.append(cur)
+                    cur = t['target']
+                    continue
+                if t['k'] == 'switch' and t.get('discr_ty') == 'bool' and _op_local(t['discr']) in kn:
+                    v = 1 if kn[_op_local(t['discr'])] else 0
+                    tgt = None
+                    for a, bb in t['arms']:
+                        if int(a) == v:
+                            tgt = bb
+                    resolved = tgt if tgt is not None else t['otherwise']
+                    chain.append(cur)
+                break
+            if not ok or resolved is None:
+                continue
+            # the temporaries must be dead outside the chain (and outside P's defining statement)
+            locs = set(kn)
+            chainset = set(chain)
+            leak = False
+            for bi, B in enumerate(blocks):
+                if bi in chainset:
+                    continue
+                stmts = B['stmts'][:-1] if bi == pi else B['stmts']
+                for s in stmts:
+                    if s['k'] == 'assign' and (_uses_local(s['rv'], locs) or (s['place']['p'] and s['place']['l'] in locs)):
+                        leak = True
+                tt = dict(B['term'])
+                tt.pop('dest', None)
+                if _uses_local(tt, locs):
+                    leak = True
+            if leak:
+                continue
+            ren = {}
+            for l in locs:
+                raw['locals'].append(dict(raw['locals'][l]))
+                ren[l] = len(raw['locals']) - 1
+            first_new = len(blocks)
+            for ci, bidx in enumerate(chain):
+                B = blocks[bidx]
+                stmts = []
+                for s in B['stmts']:
+                    if s['k'] == 'assign':
+                        s2 = _copy.deepcopy(s)
+                        if not s2['place']['p'] and s2['place']['l'] in ren:
+                            s2['place']['l'] = ren[s2['place']['l']]
+                        if s2['rv']['k'] == 'use':
+                            s2['rv']['op'] = _rename_op(s2['rv']['op'], ren)
+                        stmts.append(s2)
+                    else:
+                        stmts.append(_copy.deepcopy(s))
+                nxt = first_new + ci + 1 if ci + 1 < len(chain) else resolved
+                blocks.append({'stmts': stmts, 'term': {'k': 'goto', 'target': nxt, 'span': B['term'].get('span', {})}})
+            P['stmts'][-1] = dict(last, place=dict(last['place'], l=ren[last['place']['l']]))
+            P['term'] = dict(P['term'], target=first_new)
+            changed = True
+            changed_any = True
+            break
+        if not changed:
+            break
+    if changed_any:
+        _prune_unreachable(raw)
+    return changed_any
